@@ -124,6 +124,11 @@ func (c *Ctx) wfLoaded(s *State, comps []Comp, ts []*Term) {
 	if c.wfSeen == nil {
 		c.wfSeen = map[string]bool{}
 	}
+	for _, t := range ts {
+		if t.Bound {
+			return // under a quantifier: no ground fact can be stated
+		}
+	}
 	// every reference stored in the heap was allocated before now
 	for i, comp := range comps {
 		if comp.Sort != SRef || i >= len(ts) {
